@@ -115,6 +115,15 @@ fn main() {
         }
         Some("debug-inst") => c14inst::debug(&args[1], args.get(2).map(|s| s.as_str()).unwrap_or("")),
         Some("debug-inst-count") => { for a in [true,false] { let v = exec::inst_snippets(Tier::Quick, a); println!("audited={a}: {}", v.len()); } }
+        Some("debug-inst-skipped") => {
+            for sn in exec::inst_snippets(Tier::Quick, false) {
+                let p = sn.sierra.as_ref().unwrap();
+                let f = &p.funcs[0];
+                if exec::input_vectors(p, f, true, 3, 64).is_none() {
+                    println!("{} :: {}", sn.name, f.signature.param_types.iter().map(|t| t.to_string()).collect::<Vec<_>>().join(" | "));
+                }
+            }
+        }
         Some("dump-snip") => {
             for s in exec::snippets(Tier::Thorough) {
                 if s.name == args[1] {
@@ -140,7 +149,7 @@ fn main() {
         Some("debug-gas") => {
             let code = std::fs::read_to_string(&args[1]).unwrap();
             let mut dbs = exec::Dbs::default();
-            let cfg = pipe::Cfg::DEFAULT;
+            let cfg = if std::env::var("VERIF_CFG").as_deref() == Ok("disabled") { pipe::Cfg::BASELINE } else { pipe::Cfg::DEFAULT };
             let prog = dbs.compile(&cfg, &code).unwrap();
             let c = pipe::make_runner(prog.clone(), &cfg).unwrap();
             for f in &prog.funcs {
